@@ -29,6 +29,12 @@ def run(v, tier, rng):
             cid = "g%d_%d" % (g, pos)
             cases.append({"id": cid, "srcs": [A.p_program(prog)], "prog": prog})
             ids.append(cid)
+        # an earlier, different BITS directive in the prefix is overridden by the later one
+        for pos in range(0, npre + 1, 2):
+            prog = [("config", "BITS", ("num", 48 - mode))] + pre[:pos] + [("config", "BITS", ("num", mode))] + pre[pos:] + body
+            cid = "g%d_o%d" % (g, pos)
+            cases.append({"id": cid, "srcs": [A.p_program(prog)], "prog": prog})
+            ids.append(cid)
         if mode == 16:
             cid = "g%d_none" % g
             cases.append({"id": cid, "srcs": [A.p_program(pre + body)], "prog": pre + body})     # no BITS at all = 16-bit
